@@ -18,6 +18,33 @@ def topkText (isTop hasLabels : Bool) (k : Nat) : Bytes :=
     b "groupArray((par_a.value, par_a.fingerprint" ++ (if hasLabels then b ", par_a.labels" else []) ++ b "))), 1, " ++
     natDigits k ++ b ")"
 
+/-! segments of the leaf-like nodes of the SQL-side LogQL stages (json with parameters, regexp, drop) -/
+def jargSegs : JArg → List Seg
+  | .key k => [.str k]
+  | .idx i => [.raw (intText i)]
+
+def jsonGetSegs (path : List JArg) : List Seg :=
+  let p := joinS (b ",") (path.map jargSegs)
+  [.raw (b "if(JSONType(string, ")] ++ p ++ [.raw (b ") == 'String', JSONExtractString(string, ")] ++ p ++
+    [.raw (b "), JSONExtractRaw(string, ")] ++ p ++ [.raw (b "))")]
+
+def jsonMapSegs (ps : List (Bytes × List JArg)) : List Seg :=
+  [.raw (b "mapFromArrays([")] ++ joinS (b ",") (ps.map (fun p => [.str p.1])) ++ [.raw (b "], [")] ++
+    joinS (b ",") (ps.map (fun p => jsonGetSegs p.2)) ++ [.raw (b "])")]
+
+def regexMid (id : Nat) : Bytes :=
+  b "] as re_lbls_" ++ natDigits id ++ b ",  arrayMap(x -> x[length(x)], extractAllGroupsHorizontal(string, "
+def regexPost (id : Nat) : Bytes :=
+  b ")) as re_vals_" ++ natDigits id ++ b "),arrayFilter((x,y) -> x != '' AND y != '', re_vals_" ++ natDigits id ++
+    b ", re_lbls_" ++ natDigits id ++ b "))"
+
+def regexMapSegs (labels : List Bytes) (re : Bytes) (id : Nat) : List Seg :=
+  [.raw (b "mapFromArrays(arrayFilter( (x,y) -> x != '' AND y != '',  [")] ++ joinS (b ",") (labels.map (fun l => [.str l])) ++
+    [.raw (regexMid id), .str re, .raw (regexPost id)]
+
+def dropClauseSegs (p : Bytes × Bytes) : List Seg :=
+  if p.2.isEmpty then [.raw (b "k!="), .str p.1] else [.raw (b "(k, v)!=("), .str p.1, .raw (b ", "), .str p.2, .raw (b ")")]
+
 mutual
 def segsExpr : Expr → List Seg
   | .raw s => [.raw (b s)]
@@ -54,6 +81,10 @@ def segsExpr : Expr → List Seg
   | .topkSlice isTop hasLabels k => [.raw (topkText isTop hasLabels k)]
   | .arrayJoinFrom src arr => segsExpr src ++ [.raw (b " array JOIN ")] ++ segsExpr arr ++ [.raw (b " ")]
   | .fixedLit units scale => [.raw (b (fixedText units scale))]
+  | .jsonMap ps => jsonMapSegs ps
+  | .regexMap labels re id => regexMapSegs labels re id
+  | .mapDrop m ps => [.raw (b "mapFilter((k,v) -> ")] ++ joinS (b " and ") (ps.map dropClauseSegs) ++ [.raw (b ", ")] ++ segsExpr m ++ [.raw (b ")")]
+  | .labelsFp => [.raw (b labelsFpText)]
 def segsSels : List Sel → List (List Seg)
   | [] => []
   | s :: ss => segsSel s :: segsSels ss
